@@ -79,6 +79,8 @@ func c15alphabet(quick bool) []c15call {
 	a := []c15call{
 		{"pattern", "aa", "^a+$"}, {"pattern", "bb", "^a+$"}, {"pattern", "aa", "^b+$"}, {"pattern", "aa", "("},
 		{"schema", "aa", "^a+$"},
+		// a third expression: one thread can insert two new ones while the other still reads a snapshot
+		{"pattern", "cc", "^c+$"},
 	}
 	if !quick {
 		a = append(a, c15call{"pattern", "bb", "^b+$"}, c15call{"schema", "aa", "^b+$"}, c15call{"pattern", "bb", "("})
